@@ -167,6 +167,8 @@ func traitUnion(has []*traits.Trait, more ...trait.Name) []*traits.Trait {
 // The has slice should be sorted in ascending order by Trait.Name.
 // The returned slice will be sorted in ascending order by Trait.Name.
 func traitRemove(has []*traits.Trait, remove ...trait.Name) []*traits.Trait {
+	// has typically belongs to a stored message which must not be modified, work on a copy
+	has = append(make([]*traits.Trait, 0, len(has)), has...)
 	// has should be sorted by Trait.Name
 	for _, t := range remove {
 		ts := string(t)
